@@ -21,6 +21,8 @@ func (c *Ctx) WhoCalls(r *Rule, target types.Object, targetName string, allowed 
 		r.Unresolved(targetName)
 		return
 	}
+	declared := allowed
+	allowed = withUpCallers(allowed)
 	sites := c.P.CallsTo(target)
 	r.AddSites(len(sites))
 	seen := map[string]bool{}
@@ -35,7 +37,7 @@ func (c *Ctx) WhoCalls(r *Rule, target types.Object, targetName string, allowed 
 			r.Fail(targetName+" called from "+name, c.P.Pos(s.Call.Pos()), "%s is called from %s, which is not in the allowed-caller table", targetName, name)
 		}
 	}
-	for name, reason := range allowed {
+	for name, reason := range declared {
 		if !seen[name] {
 			r.Note("allowed caller %s (%s) no longer calls %s", name, reason, targetName)
 		}
@@ -99,6 +101,7 @@ func (c *Ctx) WhoWrites(r *Rule, obj types.Object, objName string, allowed Allow
 	}
 	sites := c.P.StoresTo(obj)
 	r.AddSites(len(sites))
+	allowed = withUpCallers(allowed)
 	for _, s := range sites {
 		name := CallerName(s.Caller)
 		if _, ok := allowed[name]; ok {
@@ -165,3 +168,22 @@ func MCallNamed(name, recvRe string) Matcher {
 // NoInlineNamesGlobal collects the method names rules match by name (MCallNamed); functions
 // with these names are never inlined.
 var NoInlineNamesGlobal = map[string]bool{}
+
+// UpCallers maps an unexported allowed function to its callers on the pinned tree (props/allowed_up.go).
+var UpCallers = map[string][]string{}
+
+// withUpCallers extends a table by the frozen callers of its unexported entries.
+func withUpCallers(a Allowed) Allowed {
+	out := Allowed{}
+	for k, v := range a {
+		out[k] = v
+	}
+	for k := range a {
+		for _, up := range UpCallers[k] {
+			if _, has := out[up]; !has {
+				out[up] = "caller of the allowed private helper " + k
+			}
+		}
+	}
+	return out
+}
